@@ -14,7 +14,7 @@ VERIF_ERRS = [
     'decreases not satisfied', 'possible bit shift underflow/overflow', 'recommendation not met',
     'could not prove termination', 'loop invariant not satisfied', 'assertion not satisfied',
     'unreachable code', 'could not show', 'not all trait items', 'possible truncation',
-    'failed this postcondition', 'unable to prove post-condition of closure', 'constructed value may fail to meet its declared type invariant',
+    'failed this postcondition', 'unable to prove post-condition of closure', 'fails to satisfy `callee.requires(args)`', 'constructed value may fail to meet its declared type invariant',
 ]
 RLIMIT_ERRS = ['Resource limit (rlimit) exceeded', 'rlimit exceeded', 'canceled']
 
